@@ -278,6 +278,16 @@ def run_case(c):
     o["discrete0"] = [np.array(d).tolist() for d in p.discrete]
     o["poly_areas0"] = [float(g.area) for g in p.polygons_closed]
     o["walk"] = _walk(p)
+    # shells and holes: the containment matrix of the closed polygons (as shapely decides it), the roots and the
+    # root -> hole edges the library reports
+    try:
+        polys = list(p.polygons_closed)
+        if all(g is not None for g in polys) and len(polys) <= 12:
+            o["contains"] = [[bool(i != j and polys[i].contains(polys[j])) for j in range(len(polys))] for i in range(len(polys))]
+            o["roots"] = sorted(int(x) for x in p.root)
+            o["shell_edges"] = sorted([int(a), int(b)] for a, b in p.enclosure_directed.edges())
+    except Exception as e_:
+        o["enclosure_err"] = repr(e_)[:200]
     # arcs: centre / radius as computed by the library for every arc entity
     arcs = []
     for e in p.entities:
@@ -408,6 +418,8 @@ def model_request(c, o):
     pieces = [[[[[_q(x) for x in p] for p in pts], rev] for pts, rev in w] for w in o["walk"] if w is not None]
     req = {"p": "C14", "op": "loops", "loops": loops, "pieces": pieces,
            "arcs": [[[_q(x) for x in p] for p in a["pts"]] for a in o["arcs"]]}
+    if "contains" in o:
+        req["contains"] = o["contains"]
     return req
 
 
@@ -419,6 +431,15 @@ def compare(c, o, m):
 
     def f(q):
         return float(Fraction(q[0], q[1]))
+    if "contains" in o:
+        en = m["enclosure"]
+        if not en["laminar"]:
+            return "containment of the closed polygons is not a laminar strict order (nested / disjoint curves expected)"
+        if sorted(en["roots"]) != o["roots"]:
+            return f"roots (shells): impl={o['roots']} model={sorted(en['roots'])}"
+        if sorted(en["edges"]) != o["shell_edges"]:
+            return f"shell -> hole edges: impl={o['shell_edges']} model={sorted(en['edges'])}"
+        STATS["enclosures_compared"] = STATS.get("enclosures_compared", 0) + 1
     for a, mc in zip(o["arcs"], m["arc_centers"]):
         if mc is None:
             return "arc centre: the model finds the control points collinear"
